@@ -8,9 +8,9 @@ src=/tmp/wt-$wt/SEED
 dst=/verif/seeded/$name
 mkdir -p $dst
 cp $src/patch.diff $dst/patch.diff
-for f in $src/*; do [ -f "$f" ] && [ $(stat -c %s "$f") -lt 300000 ] && cp "$f" $dst/; done; for f in $dst/*.py $dst/*.sh; do [ -f "$f" ] && sed -i "s#/tmp/wt-$wt/target/debug#/repo/target/debug#g; s#/tmp/wt-$wt/SEED#$dst#g; s#/tmp/wt-$wt#/repo#g" "$f"; done
+(cd $src && find . -type f -size -300k -not -path "*/target/*" -not -name "*.log" | while read f; do mkdir -p "$dst/$(dirname "$f")"; cp "$f" "$dst/$f"; done)
 # the demonstration must run from /repo's build
-[ -f $dst/demo.sh ] && sed -i "s#/tmp/wt-$wt/target/debug#/repo/target/debug#g; s#/tmp/wt-$wt/SEED#$dst#g; s#/tmp/wt-$wt#/repo#g" $dst/demo.sh
+grep -rlI "/tmp/wt-$wt" $dst | while read f; do sed -i "s#/tmp/wt-$wt/target#/repo/target#g; s#/tmp/wt-$wt/SEED#$dst#g; s#/tmp/wt-$wt#/repo#g" "$f"; done
 cd /repo
 if [ -n "$(git status --porcelain)" ]; then echo "REPO DIRTY - abort"; exit 2; fi
 if ! git apply --check $dst/patch.diff 2>/dev/null; then echo "patch does not apply"; exit 2; fi
